@@ -30,6 +30,74 @@ pub fn scc_case(fl: &str, id: &str, g: &GraphSpec, rng: &mut Rng, instances: usi
     l
 }
 
+/// C11 on one container across graph changes: scc, then an edge is moved (removed here, added there) through
+/// node handles, scc again - the container itself is not touched between the two calls
+pub fn scc_rewire_case(fl: &str, id: &str, g: &GraphSpec, remove: usize, add: (usize, usize)) -> Vec<String> {
+    let mut l = vec![format!("case {fl} {id}")];
+    l.extend(graph_lines(g));
+    l.push("g.new 0".into());
+    for k in 0..g.n {
+        l.push(format!("g.insert 0 {k}"));
+    }
+    l.push("g.scc 0".into());
+    let (u, v, _) = g.edges[remove];
+    l.push(format!("disconnect {u} {v}"));
+    l.push(format!("connect {} {} 0", add.0, add.1));
+    l.push("g.scc 0".into());
+    l
+}
+
+/// C11: a history of scc calls interleaved with edge operations and member changes on one container
+pub fn scc_history_case(fl: &str, id: &str, g: &GraphSpec, rng: &mut Rng, steps: usize) -> Vec<String> {
+    let mut l = vec![format!("case {fl} {id}")];
+    l.extend(graph_lines(g));
+    l.push("g.new 0".into());
+    for k in shuffled(rng, g.n) {
+        l.push(format!("g.insert 0 {k}"));
+    }
+    l.push("g.scc 0".into());
+    let mut edges: Vec<(usize, usize)> = g.edges.iter().map(|e| (e.0, e.1)).collect();
+    for _ in 0..steps {
+        for _ in 0..1 + rng.below(3) {
+            match rng.below(6) {
+                0 | 1 if !edges.is_empty() => {
+                    // reverse an edge (same node and edge counts)
+                    let i = rng.below(edges.len());
+                    let (u, v) = edges.remove(i);
+                    l.push(format!("disconnect {u} {v}"));
+                    l.push(format!("connect {v} {u} 0"));
+                    edges.push((v, u));
+                }
+                2 if !edges.is_empty() => {
+                    let i = rng.below(edges.len());
+                    let (u, v) = edges.remove(i);
+                    l.push(format!("disconnect {u} {v}"));
+                    let (a, b) = (rng.below(g.n), rng.below(g.n));
+                    l.push(format!("connect {a} {b} 0"));
+                    edges.push((a, b));
+                }
+                3 => {
+                    let (a, b) = (rng.below(g.n), rng.below(g.n));
+                    l.push(format!("connect {a} {b} 0"));
+                    edges.push((a, b));
+                }
+                4 if !edges.is_empty() => {
+                    let i = rng.below(edges.len());
+                    let (u, v) = edges.remove(i);
+                    l.push(format!("disconnect {u} {v}"));
+                }
+                _ => {
+                    let k = rng.below(g.n);
+                    l.push(format!("isolate {k}"));
+                    edges.retain(|e| e.0 != k && e.1 != k);
+                }
+            }
+        }
+        l.push("g.scc 0".into());
+    }
+    l
+}
+
 /// the `idx`-th directed graph on n nodes as an edge set (bit u*n+v), loops included
 pub fn bitset_graph(n: usize, idx: usize) -> GraphSpec {
     let mut edges = vec![];
@@ -253,4 +321,226 @@ pub fn cont_alphabet(fl: &str, nkeys: usize) -> Vec<String> {
     a.push(if is_directed(fl) { "g.roots 0".into() } else { "g.orphans 0".into() });
     a.push("g.to_dot 0".into());
     a
+}
+
+// ------------------------------------------------------------------------------------------------
+// C13, byte level: documents handed to the real deserialisers as raw bytes (`g.deraw`)
+
+fn number_spans(b: &[u8]) -> Vec<(usize, usize)> {
+    let mut v = vec![];
+    let mut i = 0;
+    while i < b.len() {
+        if b[i] == b'-' || b[i].is_ascii_digit() {
+            let s = i;
+            i += 1;
+            while i < b.len() && b[i].is_ascii_digit() {
+                i += 1;
+            }
+            v.push((s, i));
+        } else {
+            i += 1;
+        }
+    }
+    v
+}
+
+/// every single byte-level edit of a class that matters to a JSON reader, applied to a valid document
+pub fn json_raw_mutations(base: &str) -> Vec<Vec<u8>> {
+    let b = base.as_bytes();
+    let mut docs: Vec<Vec<u8>> = vec![b.to_vec()];
+    let splice = |s: usize, e: usize, with: &[u8]| -> Vec<u8> {
+        let mut d = b[..s].to_vec();
+        d.extend_from_slice(with);
+        d.extend_from_slice(&b[e..]);
+        d
+    };
+    // white space (and things that are not white space) in every gap
+    for i in 0..=b.len() {
+        for w in [&b" "[..], b"\n", b"\t", b"\r", b" \n\t\r ", b"\x0c", b"\x0b", b"\x00", b"\xa0", b"\xff", b"/**/", b"//\n"] {
+            docs.push(splice(i, i, w));
+        }
+    }
+    // number literals
+    let lits: [&[u8]; 34] = [b"00", b"01", b"-0", b"-1", b"-", b"--1", b"1.0", b"1.", b".1", b"1e0", b"1E2", b"1e-1", b"+1", b"0x1", b"1_0",
+        b"18446744073709551615", b"18446744073709551616", b"9223372036854775807", b"9223372036854775808", b"-9223372036854775808",
+        b"-9223372036854775809", b"4294967295", b"4294967296", b"340282366920938463463374607431768211456", b"1 2", b"", b"\"1\"", b"true", b"null", b"[1]", b"{}", b"NaN", b"Infinity", b"1e400"];
+    for (s, e) in number_spans(b) {
+        for l in lits {
+            docs.push(splice(s, e, l));
+        }
+    }
+    // punctuation: delete, double, replace
+    for i in 0..b.len() {
+        if b"[],".contains(&b[i]) {
+            docs.push(splice(i, i + 1, b""));
+            docs.push(splice(i, i, &b[i..i + 1]));
+            for r in b"[]{},:()<>;\"'" {
+                if *r != b[i] {
+                    docs.push(splice(i, i + 1, &[*r]));
+                }
+            }
+        }
+    }
+    // truncations, trailing and leading material
+    for i in 0..b.len() {
+        docs.push(b[..i].to_vec());
+    }
+    for t in [&b"x"[..], b"]", b"[", b",", b"0", b" ", b"\n", b"\x00", b"[]", b"null", b",[]", b"\xef\xbb\xbf"] {
+        docs.push(splice(b.len(), b.len(), t));
+        docs.push(splice(0, 0, t));
+    }
+    // a third element, nested wrappers
+    docs.push(splice(b.len() - 1, b.len() - 1, b",[]"));
+    docs.push(splice(b.len() - 1, b.len() - 1, b",0"));
+    let mut w = b"[".to_vec();
+    w.extend_from_slice(b);
+    w.push(b']');
+    docs.push(w);
+    docs
+}
+
+pub fn random_raw_mutation(rng: &mut Rng, doc: &[u8], alphabet: &[u8]) -> Vec<u8> {
+    let mut b = doc.to_vec();
+    for _ in 0..1 + rng.below(3) {
+        if b.is_empty() {
+            break;
+        }
+        let i = rng.below(b.len());
+        match rng.below(6) {
+            0 => {
+                b.remove(i);
+            }
+            1 => b.insert(i, alphabet[rng.below(alphabet.len())]),
+            2 => b[i] = alphabet[rng.below(alphabet.len())],
+            3 => {
+                let j = rng.below(b.len());
+                b.swap(i, j);
+            }
+            4 => b[i] ^= 1 << rng.below(8),
+            _ => b.truncate(i),
+        }
+    }
+    b
+}
+
+/// minimal CBOR writer that remembers where every item header sits: (offset, header length, major, argument)
+pub struct Cbor {
+    pub bytes: Vec<u8>,
+    pub heads: Vec<(usize, usize, u8, u64)>,
+}
+pub fn cbor_head(major: u8, arg: u64, width: u8) -> Vec<u8> {
+    // width: 0 = shortest, 1/2/4/8 = forced argument width
+    let m = major << 5;
+    let w = if width == 0 { if arg < 24 { 0 } else if arg < 1 << 8 { 1 } else if arg < 1 << 16 { 2 } else if arg < 1 << 32 { 4 } else { 8 } } else { width };
+    match w {
+        0 => vec![m | arg as u8],
+        1 => vec![m | 24, arg as u8],
+        2 => { let mut v = vec![m | 25]; v.extend_from_slice(&(arg as u16).to_be_bytes()); v }
+        4 => { let mut v = vec![m | 26]; v.extend_from_slice(&(arg as u32).to_be_bytes()); v }
+        _ => { let mut v = vec![m | 27]; v.extend_from_slice(&arg.to_be_bytes()); v }
+    }
+}
+impl Cbor {
+    fn head(&mut self, major: u8, arg: u64) {
+        let h = cbor_head(major, arg, 0);
+        self.heads.push((self.bytes.len(), h.len(), major, arg));
+        self.bytes.extend(h);
+    }
+    fn int(&mut self, v: i64) {
+        if v >= 0 { self.head(0, v as u64) } else { self.head(1, (-1 - v) as u64) }
+    }
+}
+pub fn cbor_doc(g: &GraphSpec) -> Cbor {
+    let mut c = Cbor { bytes: vec![], heads: vec![] };
+    c.head(4, 2);
+    c.head(4, g.n as u64);
+    for k in 0..g.n {
+        c.head(4, 2);
+        c.int(k as i64);
+        c.int(g.vals[k]);
+    }
+    c.head(4, g.edges.len() as u64);
+    for (u, v, e) in &g.edges {
+        c.head(4, 3);
+        c.int(*u as i64);
+        c.int(*v as i64);
+        c.int(*e as i64);
+    }
+    c
+}
+
+/// every single header-level edit of a valid CBOR document: lengths/values replaced by boundary values in every
+/// argument width, major type changed, indefinite length, each also cut off right behind the edited header
+pub fn cbor_raw_mutations(g: &GraphSpec) -> Vec<Vec<u8>> {
+    let c = cbor_doc(g);
+    let b = &c.bytes;
+    let mut docs = vec![b.clone()];
+    for i in 0..b.len() {
+        docs.push(b[..i].to_vec());
+    }
+    for &(off, hl, major, arg) in &c.heads {
+        let mut heads: Vec<Vec<u8>> = vec![];
+        let args = [0u64, 1, arg.wrapping_add(1), arg.wrapping_sub(1), 23, 24, 255, 256, 65535, 65536, u32::MAX as u64, u32::MAX as u64 + 1,
+                    i64::MAX as u64, i64::MAX as u64 + 1, u64::MAX - 1, u64::MAX, 1 << 40, 1 << 31];
+        for a in args {
+            heads.push(cbor_head(major, a, 0));
+        }
+        for w in [1u8, 2, 4, 8] {
+            heads.push(cbor_head(major, arg, w));
+        }
+        for m in 0..8u8 {
+            if m != major {
+                heads.push(cbor_head(m, arg, 0));
+                heads.push(cbor_head(m, u64::MAX, 0));
+            }
+        }
+        heads.push(vec![(major << 5) | 31]); // indefinite length / break
+        heads.push(vec![(major << 5) | 28]); // reserved additional information
+        heads.push(vec![0xff]);
+        heads.push(vec![0xf6]); // null
+        heads.push(vec![0xfb, 0x3f, 0xf0, 0, 0, 0, 0, 0, 0]); // 1.0 as f64
+        heads.push(vec![0xc2, 0x41, 0x01]); // bignum tag
+        heads.push(vec![0xc1]); // a tag in front
+        for h in heads {
+            let mut d = b[..off].to_vec();
+            d.extend_from_slice(&h);
+            let cut = d.len();
+            d.extend_from_slice(&b[off + hl..]);
+            docs.push(d.clone());
+            docs.push(d[..cut].to_vec());
+            if h == vec![0xc1] {
+                // keep the original header behind the tag
+                let mut t = b[..off].to_vec();
+                t.push(0xc1);
+                t.extend_from_slice(&b[off..]);
+                docs.push(t);
+            }
+        }
+    }
+    // the same document with indefinite-length arrays everywhere
+    let mut ind: Vec<u8> = vec![];
+    {
+        fn item(out: &mut Vec<u8>, v: i64) { out.extend(if v >= 0 { cbor_head(0, v as u64, 0) } else { cbor_head(1, (-1 - v) as u64, 0) }); }
+        ind.push(0x9f);
+        ind.push(0x9f);
+        for k in 0..g.n { ind.push(0x9f); item(&mut ind, k as i64); item(&mut ind, g.vals[k]); ind.push(0xff); }
+        ind.push(0xff);
+        ind.push(0x9f);
+        for (u, v, e) in &g.edges { ind.push(0x9f); item(&mut ind, *u as i64); item(&mut ind, *v as i64); item(&mut ind, *e as i64); ind.push(0xff); }
+        ind.push(0xff);
+        ind.push(0xff);
+    }
+    docs.push(ind);
+    docs
+}
+
+pub fn deraw_case(fl: &str, id: &str, fmt: &str, docs: &[Vec<u8>]) -> Vec<String> {
+    let mut l = vec![];
+    for (i, d) in docs.iter().enumerate() {
+        l.push(format!("case {fl} {id}-{i}-{fmt}"));
+        l.push(format!("g.deraw 0 {fmt} {}", crate::exec_cont::hex(d)));
+        l.push("dump".into());
+        l.push("g.iter 0".into());
+    }
+    l
 }
